@@ -497,11 +497,12 @@ theorem genpow_updateScaling_ok {al : Array α} {d2 : Nat} (ψ : α) {st : GenPo
       omega
 
 /-- [S] `update_scaling` of one cone on slices of the cone's dimension: the only failure is the
-Wright-omega domain panic of an exponential cone; the cone object stays consistently sized, with
-the same KKT spec and dimension -/
-theorem updateScaling1_ok {E : String → Prop} {c : ConeSt α} {s z : Array α} (mu : α) (dual : Bool)
-    (hw : dual = false → E "argument not in supported range") (hc : ConeFull c)
-    (hs : s.size = c.numel) (hz : z.size = c.numel) :
+Wright-omega domain panic, of an EXPONENTIAL cone under the PrimalDual strategy (for every other
+cone, and under the Dual strategy, it is total); the cone object stays consistently sized, with the
+same KKT spec and dimension -/
+theorem updateScaling1_okG {E : String → Prop} {c : ConeSt α} {s z : Array α} (mu : α) (dual : Bool)
+    (hw : dual = false → c.kktSpec = Kkt.ConeSpec.exp → E "argument not in supported range")
+    (hc : ConeFull c) (hs : s.size = c.numel) (hz : z.size = c.numel) :
     OkOr E (updateScaling1 c s z mu dual)
       (fun r => ConeFull r.2 ∧ r.2.kktSpec = c.kktSpec ∧ r.2.numel = c.numel) := by
   cases c with
@@ -517,7 +518,7 @@ theorem updateScaling1_ok {E : String → Prop} {c : ConeSt α} {s z : Array α}
     unfold updateScaling1
     dsimp only
     rw [bind_ok_of hsv, bind_ok_of hzv]
-    refine (exp_updateScaling_ok sv zv mu dual hw).bind fun K' _ => ?_
+    refine (exp_updateScaling_ok sv zv mu dual (fun hd => hw hd rfl)).bind fun K' _ => ?_
     exact OkOr.ok (E := E) (a := (true, ConeSt.exp K')) ⟨trivial, rfl, rfl⟩
   | pow a K =>
     obtain ⟨sv, hsv⟩ := v3E_ok "s" hs
@@ -534,10 +535,19 @@ theorem updateScaling1_ok {E : String → Prop} {c : ConeSt α} {s z : Array α}
     rw [bind_ok_of h1]
     exact OkOr.ok (E := E) (a := (ok, ConeSt.genpow al d2 ψ K')) ⟨f1, rfl, rfl⟩
 
-/-- [S] the cone-by-cone recursion of `CompositeCone::update_scaling` -/
-theorem updateScaling_go_ok {E : String → Prop} (mu : α) (dual : Bool)
-    (hw : dual = false → E "argument not in supported range") :
+/-- [S] `update_scaling` of one cone, the site allowed whatever the cone -/
+theorem updateScaling1_ok {E : String → Prop} {c : ConeSt α} {s z : Array α} (mu : α) (dual : Bool)
+    (hw : dual = false → E "argument not in supported range") (hc : ConeFull c)
+    (hs : s.size = c.numel) (hz : z.size = c.numel) :
+    OkOr E (updateScaling1 c s z mu dual)
+      (fun r => ConeFull r.2 ∧ r.2.kktSpec = c.kktSpec ∧ r.2.numel = c.numel) :=
+  updateScaling1_okG mu dual (fun hd _ => hw hd) hc hs hz
+
+/-- [S] the cone-by-cone recursion of `CompositeCone::update_scaling`: the Wright-omega site is
+needed only under the PrimalDual strategy and only when the list has an exponential cone -/
+theorem updateScaling_go_okG {E : String → Prop} (mu : α) (dual : Bool) :
     ∀ (cs : List (ConeSt α)) (ss zs : List (Array α)),
+    (dual = false → hasExp (cs.map ConeSt.kktSpec) → E "argument not in supported range") →
     ConesFull cs → List.Forall₂ (fun c (p : Array α) => p.size = c.numel) cs ss →
     List.Forall₂ (fun c (p : Array α) => p.size = c.numel) cs zs →
     OkOr E (updateScaling.go mu dual cs ss zs) (fun r => ConesFull r.2
@@ -545,17 +555,25 @@ theorem updateScaling_go_ok {E : String → Prop} (mu : α) (dual : Bool)
   intro cs
   induction cs with
   | nil =>
-    intro ss zs h _ _
+    intro ss zs _ h _ _
     unfold updateScaling.go
     exact OkOr.ok (E := E) (a := (true, [])) ⟨h, rfl, rfl⟩
   | cons c cs ih =>
-    intro ss zs h hs hz
+    intro ss zs hw h hs hz
+    have hw1 : dual = false → c.kktSpec = Kkt.ConeSpec.exp → E "argument not in supported range" := by
+      intro hd he
+      refine hw hd ?_
+      show Kkt.ConeSpec.exp ∈ c.kktSpec :: cs.map ConeSt.kktSpec
+      rw [he]
+      exact List.mem_cons_self ..
+    have hw2 : dual = false → hasExp (cs.map ConeSt.kktSpec) → E "argument not in supported range" :=
+      fun hd he => hw hd (List.mem_cons_of_mem _ he)
     cases hs with
     | @cons _ si _ ss' hsi hss =>
     cases hz with
     | @cons _ zi _ zs' hzi hzs =>
     unfold updateScaling.go
-    refine (updateScaling1_ok mu dual hw h.head hsi hzi).bind fun r1 hr1 => ?_
+    refine (updateScaling1_okG mu dual hw1 h.head hsi hzi).bind fun r1 hr1 => ?_
     obtain ⟨ok, c1⟩ := r1
     obtain ⟨f1, k1, n1⟩ := hr1
     cases ok with
@@ -568,7 +586,7 @@ theorem updateScaling_go_ok {E : String → Prop} (mu : α) (dual : Bool)
         rw [numelAll_cons, numelAll_cons, show c1.numel = c.numel from n1]
     | true =>
       dsimp only [Bool.not_true, Bool.false_eq_true, ↓reduceIte]
-      refine (ih ss' zs' h.tail hss hzs).bind fun r2 hr2 => ?_
+      refine (ih ss' zs' hw2 h.tail hss hzs).bind fun r2 hr2 => ?_
       obtain ⟨ok2, cs2⟩ := r2
       obtain ⟨f2, k2, n2⟩ := hr2
       refine OkOr.ok (E := E) (a := (ok2, c1 :: cs2)) ⟨ConesFull.cons f1 f2, ?_, ?_⟩
@@ -579,18 +597,58 @@ theorem updateScaling_go_ok {E : String → Prop} (mu : α) (dual : Bool)
         rw [numelAll_cons, numelAll_cons, show c1.numel = c.numel from n1,
           show numelAll cs2 = numelAll cs from n2]
 
-/-- [S] `CompositeCone::update_scaling`, the allowed site being needed under the PrimalDual strategy
-only -/
-theorem updateScaling_ok' {E : String → Prop} (cones : List (ConeSt α)) (s z : Array α) (mu : α)
-    (dual : Bool) (hw : dual = false → E "argument not in supported range") (h : ConesFull cones)
-    (hs : s.size = numelAll cones) (hz : z.size = numelAll cones) :
+/-- [S] the cone-by-cone recursion, the site allowed whatever the cones -/
+theorem updateScaling_go_ok {E : String → Prop} (mu : α) (dual : Bool)
+    (hw : dual = false → E "argument not in supported range") :
+    ∀ (cs : List (ConeSt α)) (ss zs : List (Array α)),
+    ConesFull cs → List.Forall₂ (fun c (p : Array α) => p.size = c.numel) cs ss →
+    List.Forall₂ (fun c (p : Array α) => p.size = c.numel) cs zs →
+    OkOr E (updateScaling.go mu dual cs ss zs) (fun r => ConesFull r.2
+      ∧ r.2.map ConeSt.kktSpec = cs.map ConeSt.kktSpec ∧ numelAll r.2 = numelAll cs) :=
+  fun cs ss zs => updateScaling_go_okG mu dual cs ss zs (fun hd _ => hw hd)
+
+/-- [S] `CompositeCone::update_scaling`: the Wright-omega site is needed only under the PrimalDual
+strategy and only when the composite has an exponential cone -/
+theorem updateScaling_okG {E : String → Prop} (cones : List (ConeSt α)) (s z : Array α) (mu : α)
+    (dual : Bool)
+    (hw : dual = false → hasExp (cones.map ConeSt.kktSpec) → E "argument not in supported range")
+    (h : ConesFull cones) (hs : s.size = numelAll cones) (hz : z.size = numelAll cones) :
     OkOr E (updateScaling cones s z mu dual) (fun r => ConesFull r.2
       ∧ r.2.map ConeSt.kktSpec = cones.map ConeSt.kktSpec ∧ numelAll r.2 = numelAll cones) := by
   obtain ⟨ss, hss, hrel1⟩ := cutE_ok (cones := cones) (v := s) "update_scaling s" (by omega)
   obtain ⟨zs, hzs, hrel2⟩ := cutE_ok (cones := cones) (v := z) "update_scaling z" (by omega)
   unfold updateScaling
   rw [bind_ok_of hss, bind_ok_of hzs]
-  exact updateScaling_go_ok mu dual hw cones ss zs h hrel1 hrel2
+  exact updateScaling_go_okG mu dual cones ss zs hw h hrel1 hrel2
+
+/-- [S] **`CompositeCone::update_scaling`, sharp form**: the only failure is the Wright-omega domain
+panic, and it can only be reached when the composite HAS an exponential cone; the cone objects stay
+consistently sized (also when a cone refuses the update), with the same KKT specs and total
+dimension -/
+theorem updateScaling_okC {E : String → Prop} (cones : List (ConeSt α)) (s z : Array α) (mu : α)
+    (dual : Bool)
+    (hw : hasExp (cones.map ConeSt.kktSpec) → E "argument not in supported range")
+    (h : ConesFull cones) (hs : s.size = numelAll cones) (hz : z.size = numelAll cones) :
+    OkOr E (updateScaling cones s z mu dual) (fun r => ConesFull r.2
+      ∧ r.2.map ConeSt.kktSpec = cones.map ConeSt.kktSpec ∧ numelAll r.2 = numelAll cones) :=
+  updateScaling_okG cones s z mu dual (fun _ => hw) h hs hz
+
+/-- [S] a composite WITHOUT exponential cone: `update_scaling` is TOTAL under both strategies -/
+theorem updateScaling_noExp_ok (cones : List (ConeSt α)) (s z : Array α) (mu : α) (dual : Bool)
+    (hne : ¬ hasExp (cones.map ConeSt.kktSpec)) (h : ConesFull cones)
+    (hs : s.size = numelAll cones) (hz : z.size = numelAll cones) :
+    OkAnd (updateScaling cones s z mu dual) (fun r => ConesFull r.2
+      ∧ r.2.map ConeSt.kktSpec = cones.map ConeSt.kktSpec ∧ numelAll r.2 = numelAll cones) :=
+  (updateScaling_okC (E := fun _ => False) cones s z mu dual hne h hs hz).okAnd
+
+/-- [S] `CompositeCone::update_scaling`, the allowed site being needed under the PrimalDual strategy
+only -/
+theorem updateScaling_ok' {E : String → Prop} (cones : List (ConeSt α)) (s z : Array α) (mu : α)
+    (dual : Bool) (hw : dual = false → E "argument not in supported range") (h : ConesFull cones)
+    (hs : s.size = numelAll cones) (hz : z.size = numelAll cones) :
+    OkOr E (updateScaling cones s z mu dual) (fun r => ConesFull r.2
+      ∧ r.2.map ConeSt.kktSpec = cones.map ConeSt.kktSpec ∧ numelAll r.2 = numelAll cones) :=
+  updateScaling_okG cones s z mu dual (fun hd _ => hw hd) h hs hz
 
 /-- [S] `CompositeCone::update_scaling`: the only failure is the Wright-omega domain panic of an
 exponential cone under the PrimalDual strategy; the cone objects stay consistently sized (also when
@@ -626,17 +684,27 @@ example (a ψ : α) : ConesFull (α := α)
 
 /-! ### the fields of `ConeStage` -/
 
-/-- the seven theorems above are literally the corresponding fields of the interface bundle -/
-example {E : String → Prop} (hw : E "argument not in supported range") (C : ConeStage (α := α) E) :
-    ConeStage (α := α) E :=
+/-- the seven theorems above are literally the corresponding fields of the interface bundle (the
+hypothesis `cones.map kktSpec = specs` is used by `updateScaling` only: the Wright-omega site needs
+to be allowed only when `specs` has an exponential cone) -/
+example {E : String → Prop} {specs : List Kkt.ConeSpec}
+    (hw : hasExp specs → E "argument not in supported range") (C : ConeStage (α := α) E specs) :
+    ConeStage (α := α) E specs :=
   { C with
-    updateScaling := updateScaling_ok hw
-    getHs := getHs_ok
-    mulHs := mulHs_ok
-    affineDs := affineDs_ok
-    dsFromDzOffset := dsFromDzOffset_ok
-    combinedDsShift := combinedDsShift_ok
-    setIdentity := setIdentityScaling_ok }
+    updateScaling := fun cones s z mu dual h hs hz hsp =>
+      updateScaling_okC cones s z mu dual (fun he => hw (hsp ▸ he)) h hs hz
+    getHs := fun cones h _ => getHs_ok cones h
+    mulHs := fun cones y x h hy hx _ => mulHs_ok cones y x h hy hx
+    affineDs := fun cones ds s h hds hs _ => affineDs_ok cones ds s h hds hs
+    dsFromDzOffset := fun cones out ds z h h1 h2 h3 _ => dsFromDzOffset_ok cones out ds z h h1 h2 h3
+    combinedDsShift := fun cones shift stepZ stepS σμ h h1 h2 h3 _ =>
+      combinedDsShift_ok cones shift stepZ stepS σμ h h1 h2 h3
+    setIdentity := fun cones hsym h _ => setIdentityScaling_ok cones hsym h }
+
+/-- with `E := SiteFor specs` (the interface's sharp site predicate) the hypothesis is met -/
+example {specs : List Kkt.ConeSpec} :
+    hasExp specs → SiteFor specs "argument not in supported range" :=
+  fun he => Or.inl ⟨rfl, he⟩
 
 end
 
